@@ -83,8 +83,14 @@ def rand_frame(rng, max_size):
 
 
 def bad_frame(rng, max_size):
-    k = rng.choice(["oversize", "oversize", "wrap32", "huge", "reserved-nibble", "trunc-opt", "optnum-overflow", "class-mismatch"])
+    k = rng.choice(["oversize", "oversize", "wrap32", "huge", "reserved-nibble", "trunc-opt", "optnum-overflow", "class-mismatch", "reserved-tkl"])
     tok = bytes(rng.randrange(256) for _ in range(rng.randrange(0, 9)))
+    if k == "reserved-tkl":
+        # RFC 8323 §3.2: TKL 9..15 is reserved — a message format error
+        tkl = rng.randrange(9, 16)
+        body = bytes(rng.randrange(256) for _ in range(tkl + rng.choice([0, 0, 3])))
+        n = len(body) - tkl
+        return bytes([min(n, 12) * 16 + tkl]) + bytes([1]) + body[: tkl + min(n, 12)], k
     if k == "oversize":
         d = max_size + rng.choice([0, 1, 2, 13, 300, 70000])   # declared body length: total certainly above the limit
         body = bytes(rng.randrange(256) for _ in range(rng.choice([0, 0, 1, 5, 40])))
